@@ -284,3 +284,16 @@ register("C18", title="codecs round-trip",
               "round-tripped; distinct = (type, set of non-default fields) resp. (#messages, #recipients)",
          floor={"quick": 50000, "thorough": 1000000},
          technique="round-trip / differential comparison of every writer-reader pair on generated values")
+
+
+register("C02", title="compaction / snapshot / restore are invisible", pkg=".",
+         parts=[{"test": "^TestVerifC02$", "children": {"quick": 16, "thorough": 16}, "cases": {"quick": 10, "thorough": 190}}],
+         timeout={"quick": 400, "thorough": 2400}, level="exploration",
+         rule="seeded histories (5-120 entries, index gaps as raft-internal entries leave them) applied through the real FSM with real LevelDB stores and a real "
+              "FileSnapshotStore under seeded schedules of Apply / Snapshot+Persist (compaction time chosen so that the cut falls before, inside or after the "
+              "log) / Persist failing after n bytes / Restore / restart with a fresh FSM; a never-snapshotted twin fed through the same glue is the oracle: "
+              "after every step (a) each filed snapshot state equals the twin's state at that index, (b) the node's log copy and output store hold exactly the "
+              "un-folded entries and nothing newer than the horizon was folded, (c) state and output equal the twin's, also on a probe continuation. "
+              "evaluations = schedule steps + outputs compared; distinct = (sequence of step kinds and cut classes, index gaps)",
+         floor={"quick": 1000, "thorough": 20000},
+         technique="differential replay against a never-snapshotted twin; bookkeeping invariant checked at the step that commits it")
